@@ -14,7 +14,8 @@ RULE = ('cases = tables over string/integer/number/boolean/date/time/datetime/ye
         'field orders that are not alphabetical; non-trivial = a cell needs quoting or a non-string type is present; '
         'distinct = distinct case digest'
         '; round 4: fields optionally carry parsing options from upstream (decimalChar/groupChar/bareNumber, custom boolean words, date formats), and add_filehash_to_path is also run with byte-identical twin resources'
-        "; round 8: rows reaching the dumper with their keys in another order than the schema's fields; histories of three dumps into one directory with failing runs in between (whenever a run succeeds the directory loads back as what it dumped)")
+        "; round 8: rows reaching the dumper with their keys in another order than the schema's fields; histories of three dumps into one directory with failing runs in between (whenever a run succeeds the directory loads back as what it dumped)"
+        '; round 9: dumps made by an interpreter under an ASCII default text encoding (non-ASCII titles in the descriptor); primary keys in the string and in the list form survive dump and load')
 TRUSTED = ['Coq 8.16.1 kernel + vm_compute', 'harness/p03.py oracle and the independent decoder (reads the written files with only the recorded dialect / format / missingValues / field properties)',
            'Python scalar text codecs satisfy parse(print x) = x (hypotheses of C03_field_codec; exercised end to end)',
            'the CSV-layer round trip read_csv (write_csv recs) = Ok recs is proved for every table (C03_csv_layer_roundtrip, IO/Csv_proofs.v); that IO/Csv.v is Python\'s csv writer/reader is checked by vm_compute against the csv module on the cell texts of every generated CSV case']
